@@ -21,8 +21,8 @@ reg("C02", level="exploration", overlay="plain",
 
 reg("C09", level="exploration", overlay="world",
     technique="exhaustive enumeration of the datagram space against the real receive loop over an in-memory network",
-    level_text="The real runIPServer loop (unmodified apart from the net/unix import paths) receives every datagram of the stated finite space; after each one the number, destination and header of the datagrams it wrote are compared with the statement's predicate. Exhaustive over the space, no sampling.",
-    budget={"quick": 120, "thorough": 600}, workers={"quick": 2, "thorough": 2},
+    level_text="The real runIPServer and runSCIONServer loops (unmodified apart from the net/unix import paths) receive every datagram of the stated finite space; after each one the number, destination and header of the datagrams it wrote are compared with the statement's predicate. Exhaustive over the space, no sampling.",
+    budget={"quick": 120, "thorough": 600}, workers={"quick": 8, "thorough": 8},
     assumptions=["header bytes 1..47 take four patterns, not all values (the request predicate reads only byte 0)",
                  "trailing data is zeros/0xff/constant or a project-encoded NTS request (optionally with one flipped bit)",
                  "kernel socket behaviour is emulated by shim/vnet + shim/vunix"])
